@@ -95,3 +95,10 @@ Print Assumptions C05_unseen_wrapper_uses_transform_reference.
 Theorem C05_score_paths : forallb C05_tie.path_ok score_paths = true /\ (13 <= List.length score_paths)%nat.
 Proof. exact C05_tie.score_paths_ok. Qed.
 Print Assumptions C05_score_paths.
+
+(* in BaseModelCrossSet.fit and .transform the field variables are bound by stage calls only (table regenerated from the source by T7chain): nothing
+   joins, aligns or selects one field by the other between the stages, so a field's scores depend on that field's data alone *)
+From XV Require Gen.T7chain Proofs.Chain_tie.
+Theorem C05_fields_only_pass_through_their_own_stages : T7chain.cross_other_field_writes = [].
+Proof. exact Chain_tie.cross_fields_only_pass_through_stages. Qed.
+Print Assumptions C05_fields_only_pass_through_their_own_stages.
